@@ -34,7 +34,10 @@ Print Assumptions C06_switch_total.
    model; and the leaf readers and string parsers the arms call are the ones the model assumes
    (ReadIntN = intN(ReadInt64()), ReadFloat32/64 = strconv.ParseFloat with bit size 32/64 - one rounding -,
    stringToX = strconv.ParseInt/ParseUint(s, 10, bitSize), ParseBool, ParseFloat(s, 32/64),
-   complexconv.ParseComplex(s, 64/128), big.X.SetString) *)
+   complexconv.ParseComplex(s, 64/128), big.X.SetString); and every value that outlives the call is read
+   through the COPYING readers (Until, Next, readSafeString, ReadString, ReadBytes ...): an arm or reader that
+   returns a window of the read buffer instead (UnsafeUntil, readUnsafeString, readUnsafeBytes ...) is a
+   recognised, different catalogue entry (R...Unsafe, RdOwn false) and breaks this equality *)
 Theorem C06_switch_matches_model :
   (forall r, In r all_routines -> forall t, (t < 256)%N ->
      sw_lookup (gen_switch (routine_name r)) t = sw_lookup (model_switch r) t) /\
